@@ -2,7 +2,7 @@
 
 /*@obligation
 id: C17.coder_normal
-props: C17
+props: C17 C18
 entry: h_coder_normal
 flags: xz
 kind: bounded
@@ -37,7 +37,7 @@ assume: io_read/io_write/message_progress_update are stubs
 */
 /*@obligation
 id: C17.coder_run
-props: C17 C19
+props: C17 C18 C19
 entry: h_coder_run
 flags: xz
 defs: -DCN_MAXCALLS=3
@@ -50,10 +50,26 @@ fn: coder_run
 sentinels: 4
 expect: 5
 replay: none
-desc: coder_run through the real coder_init and coder_normal/coder_passthru with liblzma and file_io stubbed: every opened file pair is closed exactly once; io_close(pair, true) -- the call that removes the source -- happens only if the liblzma initialiser succeeded, the target was opened (except in test mode), no read or write failed, every produced byte was written, and the coder ended with LZMA_STREAM_END (or the pass-through copy completed); a failed first read, failed initialisation, a refused/failed io_open_dest or any coding failure reach io_close(pair, false); a refused source is not processed at all; test mode never opens a destination
+desc: coder_run through the real coder_init and coder_normal/coder_passthru with liblzma and file_io stubbed: every opened file pair is closed exactly once; io_close(pair, true) -- the call that removes the source -- happens only if the liblzma initialiser succeeded, the target was opened (except in test mode), no read or write failed, every produced byte was written, and the coder ended with LZMA_STREAM_END (or the pass-through copy completed); a failed first read, failed initialisation, a refused/failed io_open_dest or any coding failure reach io_close(pair, false); a refused source is not processed at all; test mode never opens a destination; the static coder state left by an EARLIER file of the same run (pending input in strm, allow_trailing_input) is arbitrary and must not leak: the coder consumes only bytes read from this file, and trailing garbage after a .xz/.lzma/raw stream is never a success
 assume: io_open_src/io_open_dest/io_close/io_read/io_write, the liblzma initialisers and lzma_code, message_xxx are stubs with nondeterministic results
 */
 
+/*@obligation
+id: C09.xz.settings
+props: C09
+entry: h_settings
+flags: xz
+kind: bounded
+bound: one filter chain (optional BCJ filter + LZMA1/LZMA2), at most 4 threads, dictionary size below 9 MiB with arbitrary low bits (the adjustment loops are completely unwound for these), memory estimates arbitrary per call
+unwind: 12
+fn: coder_set_compression_settings get_chains_memusage memlimit_too_small
+sentinels: 6
+expect: 20
+replay: none
+timeout: 1200
+desc: xz's pre-flight memory adjustment with liblzma's estimators replaced by stubs that may return ANY value at every call (recorded with the configuration they were asked about): when coder_set_compression_settings returns normally, the LAST estimate it obtained is for exactly the configuration it leaves behind (thread count / single- or multi-threaded mode / dictionary size) and that estimate is <= the memory limit in force -- the only exception being the documented one: multi-threaded compression with the AUTOMATIC (not user-specified) limit continues with one worker thread even if still above it; otherwise it ends in an error (memlimit_too_small / message_fatal); settings are only ever lowered (threads <= requested, dictionary <= requested, never below 1 MiB when reduced, still a multiple of 1 MiB when reduced); without --no-adjust... i.e. with opt_auto_adjust == false neither the dictionary size is touched nor multi-threaded mode dropped; raw format never adjusts
+assume: lzma_raw_encoder_memusage/lzma_raw_decoder_memusage/lzma_stream_encoder_mt_memusage/lzma_mt_block_size/lzma_lzma_preset/hardware_xxx are stubs; the relation between the estimates and real allocation is the liblzma side of C09 (other obligations)
+*/
 #include "verif.h"
 #include "coder.c"
 
@@ -65,13 +81,16 @@ struct in {
 	uint32_t ret[6]; size_t use_in[6], make_out[6];
 	size_t rd[6]; uint8_t rd_eof[6], rd_fail[6], wr_fail[6];
 	uint8_t open_src_fail, open_dest_fail, coder_result, props_fail, force, to_stdout, format; uint32_t init_ret, props_dict;
+	/* settings */
+	uint64_t limit, limit_mt, est[12], mt_block; uint32_t threads, dict_size; uint8_t mt_default, auto_adjust, bcj, lzma1, use_preset;
 };
 static struct in IN VERIF_IN_INIT;
 
 static struct {
-	unsigned code_calls, reads, writes, closes, open_dests, coder_calls, inits;
+	unsigned code_calls, reads, writes, closes, open_dests, coder_calls, inits, ests, threads_set;
+	uint64_t last_est; bool last_mt; uint32_t last_threads, last_dict;
 	uint32_t last_ret; lzma_action last_action;
-	uint64_t produced, written, read_total;
+	uint64_t produced, written, read_total, consumed;
 	bool read_failed, write_failed, close_success, write_bad_args;
 	size_t fix_src;
 } G;
@@ -90,7 +109,7 @@ lzma_ret lzma_code(lzma_stream *s, lzma_action action)
 	__CPROVER_assume(ui <= s->avail_in && mo <= s->avail_out);
 	s->avail_in -= ui; if (ui > 0) s->next_in += ui;
 	s->avail_out -= mo; if (mo > 0) s->next_out += mo;
-	G.produced += mo;
+	G.produced += mo; G.consumed += ui;
 	/* liblzma contract (api/lzma/base.h): LZMA_UNSUPPORTED_CHECK/LZMA_NO_CHECK/LZMA_GET_CHECK come from decoders only */
 	__CPROVER_assume(!IN.compress || (IN.ret[k] != LZMA_UNSUPPORTED_CHECK && IN.ret[k] != LZMA_NO_CHECK && IN.ret[k] != LZMA_GET_CHECK));
 	G.last_ret = IN.ret[k]; G.last_action = action;
@@ -165,12 +184,34 @@ void message_filters_show(enum message_verbosity v, const lzma_filter *f) { (voi
 void message_set_files(unsigned n) { (void)n; }
 enum message_verbosity message_verbosity_get(void) { return V_WARNING; }
 const char *tuklib_mask_nonprint(const char *s) { return s; }
-bool hardware_threads_is_mt(void) { return IN.mt; }
-uint32_t hardware_threads_get(void) { return 1; }
-uint64_t hardware_memlimit_get(enum operation_mode m) { (void)m; return UINT64_MAX; }
-uint64_t hardware_memlimit_mtenc_get(void) { return UINT64_MAX; }
+static bool g_mt, g_settings_mode;
+bool hardware_threads_is_mt(void) { return g_mt; }
+void hardware_threads_set(uint32_t n) { g_mt = n > 1; ++G.threads_set; }
+uint32_t hardware_threads_get(void) { return g_settings_mode ? IN.threads : 1; }
+uint64_t hardware_memlimit_get(enum operation_mode m) { (void)m; return g_settings_mode ? IN.limit : UINT64_MAX; }
+uint64_t hardware_memlimit_mtenc_get(void) { return g_settings_mode ? IN.limit_mt : UINT64_MAX; }
 uint64_t hardware_memlimit_mtdec_get(void) { return UINT64_MAX; }
-bool hardware_memlimit_mtenc_is_default(void) { return true; }
+bool hardware_memlimit_mtenc_is_default(void) { return g_settings_mode ? IN.mt_default : true; }
+/* estimators: any value at every call; the configuration asked about is recorded */
+static lzma_options_lzma SOPT;
+static uint64_t est_stub(bool mt, uint32_t threads)
+{
+	const unsigned k = G.ests++;
+	__CPROVER_assume(k < 12);
+	/* unsupported options (UINT64_MAX) do not depend on the thread count or dictionary size being lowered */
+	__CPROVER_assume(k == 0 || IN.est[k] != UINT64_MAX);
+	const lzma_options_lzma *o = chains[0][IN.bcj ? 1 : 0].options;
+	G.last_est = IN.est[k]; G.last_mt = mt; G.last_threads = threads; G.last_dict = o->dict_size;
+	return IN.est[k];
+}
+uint64_t lzma_raw_encoder_memusage(const lzma_filter *f) { (void)f; return est_stub(false, 1); }
+uint64_t lzma_raw_decoder_memusage(const lzma_filter *f) { (void)f; return est_stub(false, 1); }
+uint64_t lzma_stream_encoder_mt_memusage(const lzma_mt *o) { return est_stub(true, o->threads); }
+uint64_t lzma_mt_block_size(const lzma_filter *f) { (void)f; return IN.mt_block; }
+lzma_bool lzma_lzma_preset(lzma_options_lzma *o, uint32_t preset) { (void)preset; o->dict_size = IN.dict_size; return false; }
+lzma_bool lzma_check_is_supported(lzma_check c) { (void)c; return true; }
+void tuklib_exit(int status, int err_status, int show_error) { (void)status; (void)err_status; (void)show_error; __CPROVER_assume(0); }
+uint64_t opt_flush_timeout;
 void mytime_set_start_time(void) {}
 uint32_t mytime_get_flush_timeout_dummy;
 void *xrealloc(void *p, size_t s) { (void)p; (void)s; return NULL; }
@@ -190,7 +231,7 @@ static bool wf(void)
 
 static void setup(void)
 {
-	memset(&G, 0, sizeof(G)); memset(&PAIR, 0, sizeof(PAIR));
+	memset(&G, 0, sizeof(G)); g_mt = IN.mt; g_settings_mode = false; memset(&PAIR, 0, sizeof(PAIR));
 	PAIR.src_name = NAME; PAIR.src_eof = IN.src_eof; PAIR.flush_needed = IN.flush_needed;
 	opt_mode = IN.test_mode ? MODE_TEST : (IN.compress ? MODE_COMPRESS : MODE_DECOMPRESS);
 	opt_format = IN.format_xz ? FORMAT_XZ : FORMAT_LZMA;
@@ -216,6 +257,9 @@ void h_coder_normal(void)
 		if (!IN.trailing) ASSERT(strm.avail_in == 0 && PAIR.src_eof, "success only at the end of the input: nothing unread, no trailing garbage");
 		REACH(cn_success);
 		REACH_IF(G.writes >= 2, cn_success_two_writes);
+	}
+	{
+		ASSERT(G.consumed <= IN.avail_in + G.read_total, "the coder is only fed bytes that were read");
 	}
 	ASSERT(!G.write_bad_args, "io_write always gets the output buffer from its start with exactly the produced amount");
 	if (IN.test_mode) ASSERT(G.writes == 0, "test mode writes nothing");
@@ -247,9 +291,11 @@ void h_coder_run(void)
 	ASSUME(!(IN.test_mode && IN.compress));
 	ASSUME(IN.format <= FORMAT_RAW && !(IN.compress && (IN.format == FORMAT_AUTO || IN.format == FORMAT_LZIP)));
 	setup();
-	opt_format = (enum format_type)IN.format; opt_force = IN.force; opt_stdout = IN.to_stdout;
-	strm.avail_in = 0;
+	opt_format = (enum format_type)IN.format; opt_force = IN.force; opt_stdout = IN.to_stdout; opt_single_stream = false;
+	/* strm, in_buf and allow_trailing_input are static: they hold whatever the PREVIOUS file of the same invocation left behind
+	 * (setup() gave strm.avail_in and allow_trailing_input arbitrary values) */
 	coder_run(NAME);
+	ASSERT(G.consumed <= G.read_total, "the coder is only ever fed bytes read from THIS file (nothing left over from an earlier file)");
 	if (IN.open_src_fail) { ASSERT(G.closes == 0 && G.code_calls == 0 && G.reads == 0 && G.open_dests == 0, "a refused source is not processed at all"); REACH(cr_refused); return; }
 	ASSERT(G.closes == 1, "the pair is closed exactly once");
 	const bool passthru = G.inits == 0 && !IN.compress;
@@ -260,6 +306,9 @@ void h_coder_run(void)
 			ASSERT(G.inits == 1 && IN.init_ret == LZMA_OK, "io_close(success) only after a successful initialisation");
 			ASSERT(G.code_calls >= 1 && G.last_ret == LZMA_STREAM_END, "io_close(success) only after LZMA_STREAM_END");
 			if (!IN.test_mode) ASSERT(G.written == G.produced, "io_close(success) only after every produced byte was written");
+			/* trailing input is acceptable only for lzip members (recognised by coder_init for FORMAT_LZIP / FORMAT_AUTO); --single-stream is off here */
+			if (!IN.compress && IN.format != FORMAT_LZIP && IN.format != FORMAT_AUTO)
+				ASSERT(strm.avail_in == 0 && PAIR.src_eof, "io_close(success) only if the whole input was consumed: trailing garbage is an error, whatever an earlier file allowed");
 			REACH(cr_success);
 		} else {
 			ASSERT(IN.force && IN.to_stdout && !IN.test_mode, "pass-through only for xz -dfc (decompress, force, stdout) with unrecognised input");
@@ -271,4 +320,62 @@ void h_coder_run(void)
 	if (G.read_failed || G.write_failed || (G.open_dests == 1 && IN.open_dest_fail)) { ASSERT(!G.close_success, "failed read, write or open of the target: closed as failure"); REACH(cr_io_failure); }
 	if (G.open_dests == 1 && IN.open_dest_fail) ASSERT(G.writes == 0, "nothing is written when the target could not be opened");
 	if (IN.test_mode) ASSERT(G.open_dests == 0 && G.writes == 0, "test mode never opens a destination nor writes");
+}
+
+
+/* ---------------- coder_set_compression_settings ---------------- */
+void h_settings(void)
+{
+	HAVOC(IN, struct in);
+	ASSUME(wf());
+	ASSUME(IN.mt_default <= 1 && IN.auto_adjust <= 1 && IN.bcj <= 1 && IN.lzma1 <= 1 && IN.use_preset <= 1);
+	ASSUME(IN.threads >= 1 && IN.threads <= 4 && IN.dict_size >= 4096 && IN.dict_size < (UINT32_C(9) << 20));
+	ASSUME(IN.format == FORMAT_XZ || IN.format == FORMAT_LZMA || IN.format == FORMAT_RAW);
+	/* main(): the function is called when compressing, or for raw decoding; .lzma has exactly one LZMA1 filter, .xz never LZMA1 */
+	ASSUME(IN.compress || IN.format == FORMAT_RAW);
+	ASSUME(IN.format != FORMAT_LZMA || (IN.lzma1 && !IN.bcj));
+	ASSUME(IN.format != FORMAT_XZ || !IN.lzma1);
+	setup(); g_settings_mode = true;
+	g_mt = IN.threads > 1;
+	opt_mode = IN.compress ? MODE_COMPRESS : MODE_DECOMPRESS;
+	opt_format = (enum format_type)IN.format; opt_auto_adjust = IN.auto_adjust; opt_flush_timeout = 0; opt_block_list = NULL; block_list_largest = 0;
+	chains_used_mask = 1; check_default = true;
+	SOPT.dict_size = IN.dict_size;
+	unsigned n = 0;
+	if (IN.use_preset && !IN.bcj) { filters_count = 0; }
+	else {
+		if (IN.bcj) { chains[0][n].id = LZMA_FILTER_X86; chains[0][n].options = NULL; ++n; }
+		chains[0][n].id = IN.lzma1 ? LZMA_FILTER_LZMA1 : LZMA_FILTER_LZMA2; chains[0][n].options = &SOPT; ++n;
+		chains[0][n].id = LZMA_VLI_UNKNOWN; filters_count = n;
+	}
+	const unsigned li = IN.bcj ? 1 : 0;
+
+	coder_set_compression_settings();
+
+	/* normal return */
+	const lzma_options_lzma *fo = chains[0][li].options;
+	ASSERT(fo != NULL && (chains[0][li].id == LZMA_FILTER_LZMA1 || chains[0][li].id == LZMA_FILTER_LZMA2), "the chain still ends in the LZMA filter");
+	const bool was_mt = IN.compress && IN.format == FORMAT_XZ && IN.threads > 1;
+	const uint64_t limit = was_mt ? IN.limit_mt : IN.limit;
+	const bool now_mt = g_mt && IN.compress && IN.format == FORMAT_XZ;   /* threads only matter for .xz compression */
+	const uint32_t now_threads = now_mt ? mt_options.threads : 1;
+	ASSERT(G.ests >= 1, "an estimate was obtained");
+	/* the documented escape: automatic limit, multi-threaded mode kept with one worker */
+	const bool escape = was_mt && IN.mt_default && now_mt && now_threads == 1 && G.last_est > limit;
+	if (!escape) {
+		ASSERT(G.last_est <= limit, "on normal return the last estimate is within the memory limit in force");
+		REACH(st_within);
+	} else REACH(st_default_limit_escape);
+	/* verbose mode asks for a decoder estimate too, but only at V_DEBUG; the stub reports V_WARNING, so the last estimate is the encoder's */
+	ASSERT(G.last_dict == fo->dict_size && G.last_mt == now_mt && (!now_mt || G.last_threads == now_threads), "that estimate was computed for exactly the configuration left behind");
+	ASSERT(now_threads <= IN.threads && fo->dict_size <= IN.dict_size, "settings are only ever lowered");
+	if (fo->dict_size != IN.dict_size) {
+		ASSERT(IN.auto_adjust && IN.compress && IN.format != FORMAT_RAW, "the dictionary is reduced only when compressing with auto-adjust, never in raw mode");
+		ASSERT(fo->dict_size >= (UINT32_C(1) << 20) && (fo->dict_size & ((UINT32_C(1) << 20) - 1)) == 0, "a reduced dictionary is a positive multiple of 1 MiB");
+		ASSERT(!now_mt, "the dictionary is only reduced in single-threaded mode");
+		REACH(st_dict_reduced);
+	}
+	if (was_mt && !now_mt) { ASSERT(IN.auto_adjust && !IN.mt_default, "multi-threaded mode is dropped only with auto-adjust and a user-specified limit"); REACH(st_mt_dropped); }
+	REACH_IF(was_mt && now_mt && now_threads < IN.threads && now_threads > 1, st_threads_reduced);
+	REACH_IF(!IN.compress, st_raw_decode);
 }
